@@ -209,19 +209,28 @@ func c08API(o opts, g *gen.G, syms *val.Syms, w *emit.Writer, cols []val.Col, cf
 				if len(rowList) > 0 {
 					src = rowList[g.Intn(len(rowList))]
 				}
+				stale := false
 				switch z := g.Intn(10); {
 				case z < 3 && len(uuids) > 0:
 					u = uuids[g.Intn(len(uuids))]
 				case z < 4:
 					u = gen.UUIDn(555000 + g.Intn(3))
+				case z < 6 && src != nil:
+					// an object kept from before: a uuid the cache does not know, index values of a live row
+					u = gen.UUIDn(555000 + g.Intn(3))
+					stale = true
 				}
 				// fields: index columns of an existing row, partially, or random values
 				for _, grp := range [][]string{{"name"}, {"name", "n"}, {"u"}, {"tag"}, {"os"}, {"n"}, {"m"}} {
-					if !g.Chance(0.35) {
+					if !g.Chance(0.35) && !(stale && grp[0] != "m" && g.Chance(0.5)) {
 						continue
 					}
 					for _, cn := range grp {
 						c := colOf(cols, cn)
+						if stale {
+							vals[cn] = src[cn]
+							continue
+						}
 						if src != nil && g.Chance(0.75) {
 							vals[cn] = src[cn]
 						} else {
